@@ -667,6 +667,22 @@ def goal_pipeline(spec, pre, post):
   return (not msgs), f"narrowphase {which} thread {tid} geoms ({g1},{g2}) world {w}: " + ("; ".join(msgs[:4]) or "ok")
 
 
+def fmul_commutes(terms):
+  """instances of fmul(a, b) = fmul(b, a) for every product occurring in `terms` (the float abstraction orders the operands
+  of a product by term id, which differs between the kernel run and the reference run)"""
+  seen, out, stack = set(), [], [t for t in terms if is_sym(t)]
+  while stack:
+    t = stack.pop()
+    if t.get_id() in seen:
+      continue
+    seen.add(t.get_id())
+    if z3.is_app(t):
+      if t.decl().name() == "fmul" and t.num_args() == 2:
+        out.append(t == t.decl()(t.arg(1), t.arg(0)))
+      stack.extend(t.children())
+  return out
+
+
 def unit_pipeline(which):
   def run(ctx):
     from mujoco_warp._src import collision_core as cc
@@ -714,12 +730,14 @@ def unit_pipeline(which):
     names = {"tid": tid, "geom1": g1, "geom2": g2, "world": w, "pairid0": pid0, "pairid1": pid1, "nacon0": n0, "naconmax": naconmax}
     rp = lib.make_replay(ctx, kt, loc, f"pipeline-{which}", "goal", goal="checks.c04:goal_pipeline", env={"which": which, "randomize_floats": 8})
     cnt = kt.atomic_total("nacon_out", 0)
-    ctx.prove(sess, "counter", cmp("==", cnt, ite(And(active, rec), 1, 0)), names=names, replay=rp, desc=f"narrowphase {which}: a candidate pair is (not) recorded against MuJoCo's rule dist < margin + gap / filter / sensor")
     want = {
       "contact_dist_out": [dist], "contact_pos_out": list(pos.c), "contact_frame_out": list(frame.c), "contact_includemargin_out": [P["margin"]],
       "contact_friction_out": P["friction"], "contact_solreffriction_out": P["solreffriction"], "contact_dim_out": [ref_dim(dist, P["margin"], P["condim"], P["adhesion"])],
       "contact_geom_out": [g1, g2], "contact_worldid_out": [w], "contact_adhesion_out": [P["adhesion"]], "contact_geomcollisionid_out": [0],
     }
+    allterms = [core.to_z3(v, "real") if not is_sym(v) else v for vals in want.values() for v in vals] + [kt.post(F, n0, k=c) for F, vals in want.items() for c in range(len(vals))] + [core.zbool(rec), core.to_z3(cnt, "int")]
+    sess.add(*fmul_commutes(allterms))
+    ctx.prove(sess, "counter", cmp("==", cnt, ite(And(active, rec), 1, 0)), names=names, replay=rp, desc=f"narrowphase {which}: a candidate pair is (not) recorded against MuJoCo's rule dist < margin + gap / filter / sensor")
     for F, vals in want.items():
       goal = And(*[cmp("==", kt.post(F, n0, k=c), v) for c, v in enumerate(vals)])
       ctx.prove(sess, f"slot/{F}", goal, And(active, rec, fits), names=names, replay=rp, desc=f"narrowphase {which}: {F} of the recorded contact is not what the pair's pose / size / parameters give (wrong geom, world, argument or parameter wired through)")
